@@ -61,6 +61,9 @@ func verifC06Run(op int) {
 	d := verifDB(k, sink)
 	caller := verifCaller()
 	name := nondetString("name")
+	// through the Go API the name may be any string, also one that is not valid UTF-8 (which a JSON record cannot carry)
+	verifIllFormedName = nondetBool("name.is.not.valid.utf8")
+	illFormedIf(name, verifIllFormedName)
 	ver := api.SecretVersion(nondetU32("version"))
 	val := nondetSeq("val")
 	pre := snapshot(k.secrets)
@@ -68,6 +71,7 @@ func verifC06Run(op int) {
 	verifAuditCtx.k, verifAuditCtx.pre, verifAuditCtx.sink, verifAuditCtx.on = k, pre, sink, true
 
 	res := verifCallOp(d, op, caller, name, ver, val)
+	verifIllFormedName = false
 
 	verifAuditCtx.on = false
 	a := verifAllowUF(caller.Permissions, res.required, name)
